@@ -12,26 +12,29 @@ from checks.c08_threads import relevant
 
 ID = 'C10'
 LEVEL = 'exploration'
-RULE = ('case = arrangement program over 2-3 applications (optionally one of them the module-level default app; all share one errors_map, as applications with '
-        'the default configuration do): a sequence of steps served in one thread, each a plain request of any kind of vlib/site.py or an outer request to a handler '
+RULE = ('case = arrangement program over 2-3 applications (optionally one of them the module-level default app; each with the stock configuration - whose error '
+        'objects are process-wide - or with its own errors_map): a sequence of steps served in one thread, each a plain request of any kind of vlib/site.py or an outer request to a handler '
         'that performs foreign operations in its middle: serve a request on another application (nested call, any kind), nest a further outer request (depth 2), '
         'Request.copy() followed by writes to the copy, construct a new application (and serve on it) while serving; optionally followed by two requests on two '
         'different applications interleaved on two threads under the deterministic scheduler. Oracle: probes inside the handlers before and after every foreign '
         'operation show the own request of that application (environ identity, path, query string, cookie; response headers / cookies written before are still '
         'there); every response (outer, inner, plain, threaded) == the response of the same request on a fresh stand-alone application. The known defect K10 '
         '(ts_props store shared per class) is excluded by construction: the whole search runs with a harness-side shim that gives the generated properties '
-        'per-instance stores (vlib/shim.py); three pinned witnesses (nested call, copy(), construction while serving) run WITHOUT the shim. Non-trivial = at '
-        'least one foreign operation or a threaded part; distinct by case hash.')
+        'per-instance stores (vlib/shim.py); three pinned witnesses (nested call, copy(), construction while serving) run WITHOUT the shim. Additionally EVERY ordered pair of request kinds is served first on application A (stock or custom configuration), then on B, then on A. Non-trivial = at '
+        'least one foreign operation or a threaded part, or a kind pair across two applications; distinct by case hash.')
 ASSUMPTIONS = ['search runs under the K10 shim (stated exclusion); witnesses run on the unmodified classes', 'nested calls on the SAME application (re-entrancy) are not part of the property',
                'reference responses come from stand-alone applications with their own error objects']
 
 _SOLO = {}
 
 
-def solo(kind, n):
-    key = (kind, n)
+_custom_errors = S.custom_errors
+
+
+def solo(kind, n, cfg='default'):
+    key = (kind, n, cfg)
     if key not in _SOLO:
-        app = S.make_app(private_errors=True)
+        app = S.make_app(private_errors=True) if cfg == 'default' else S.make_app(config={'errors_map': _custom_errors()})
         r = call_app(app, S.make_env(kind, n))
         if r.escaped is not None:
             raise CheckFailure(f'solo request {key} raised {fmt_exc(r.escaped)}')
@@ -75,7 +78,8 @@ def case_st(draw):
         i, j = draw(st.permutations(range(napps)))[:2]
         threads = {'reqs': [[i, draw(KIND), draw(st.integers(0, 30))], [j, draw(KIND), draw(st.integers(0, 30))]],
                    'schedule': draw(st.lists(st.tuples(st.integers(0, 1), st.integers(1, 200)).map(list), min_size=1, max_size=12))}
-    return {'napps': napps, 'default': draw(st.sampled_from([-1, -1, 0, 1])), 'steps': steps, 'threads': threads}
+    return {'napps': napps, 'default': draw(st.sampled_from([-1, -1, 0, 1])), 'steps': steps, 'threads': threads,
+            'cfg': draw(st.lists(st.sampled_from(['default', 'default', 'custom']), min_size=napps, max_size=napps))}
 
 
 class World:
@@ -85,11 +89,14 @@ class World:
         self.served = []           # (description, kind, n, triple)
         self.stack = {}            # (thread ident, app index) -> [environ, ...]
         self.apps = []
-        errors_map = {k: ombott.HTTPError(v.status_code, v.body) for k, v in ombott.DefaultConfig.errors_map.items()}
         self.foreign = [dict() for _ in range(case['napps'])]
+        self.cfg = list(case.get('cfg') or ['default'] * case['napps'])
         for i in range(case['napps']):
             existing = ombott.app if case['default'] == i else None
-            self.apps.append(S.make_app(probe=self._probe_for(i), config={'errors_map': errors_map}, app=existing, foreign=self.foreign[i]))
+            # 'default': the stock configuration (its error objects are the process-wide ones every default-config application shares);
+            # 'custom': an application configured with its own errors_map
+            config = {'errors_map': _custom_errors()} if self.cfg[i] == 'custom' else None
+            self.apps.append(S.make_app(probe=self._probe_for(i), config=config, app=existing, foreign=self.foreign[i]))
         self.nforeign = 0
         self.undo = []          # listeners are removed at the end of the case (the default app outlives it)
 
@@ -137,7 +144,7 @@ class World:
         if r.escaped is not None:
             self.problems.append(f'{desc}: exception escaped {fmt_exc(r.escaped)[-600:]}')
             return
-        self.served.append((desc, kind, n, (r.status, sorted(r.headers or []), r.body)))
+        self.served.append((desc, kind, n, (r.status, sorted(r.headers or []), r.body), self.cfg[i]))
 
     def run_acts(self, i, acts, desc):
         import ombott
@@ -183,7 +190,7 @@ class World:
                 if a['serve']:
                     r = call_app(new, S.make_env(a['kind'], a['n']))
                     if r.escaped is None:
-                        self.served.append((f'{desc} > request on an application constructed while serving', a['kind'], a['n'], (r.status, sorted(r.headers or []), r.body)))
+                        self.served.append((f'{desc} > request on an application constructed while serving', a['kind'], a['n'], (r.status, sorted(r.headers or []), r.body), 'default'))
         self.foreign[i]['act'] = None
 
 
@@ -209,7 +216,8 @@ def run_case(ctx, case, shimmed=True):
     try:
         w = None
         for k, n in sorted(wanted):
-            solo(k, n)
+            for cfg in set(case.get('cfg') or ['default']) | {'default'}:
+                solo(k, n, cfg)
         w = World(case)
         for si, s in enumerate(case['steps']):
             w.serve(s['app'], s['kind'], s['n'], s['acts'], f'step {si} on app {s["app"]} {s["kind"], s["n"]}')
@@ -233,8 +241,8 @@ def run_case(ctx, case, shimmed=True):
             shim.uninstall()
     if w.problems:
         raise CheckFailure('; '.join(w.problems[:3]) + f'\n arrangement: {case}')
-    for desc, kind, n, got in w.served:
-        ref = _SOLO[(kind, n)]
+    for desc, kind, n, got, cfg in w.served:
+        ref = solo(kind, n, cfg)
         if got != ref:
             raise CheckFailure(f'{desc}: response differs from the one the same request produces on a stand-alone application:\n  got  {got[0]!r} {got[1]!r} {got[2][:200]!r}\n'
                                f'  solo {ref[0]!r} {ref[1]!r} {ref[2][:200]!r}\n arrangement: {case}')
@@ -262,6 +270,11 @@ def check_case(ctx, case):
         ctx.count('default_app_involved')
     if kinds or case.get('threads'):
         ctx.nontrivial(case, sample=case)
+
+
+def check_pair(ctx, case):
+    run_case(ctx, case, shimmed=True)
+    ctx.nontrivial(case)
 
 
 WITNESSES = {
@@ -294,6 +307,23 @@ def run(ctx):
         for fid, wcase in WITNESSES.items():
             for default in (-1, 0, 1):
                 ctx.guarded(check_case, dict(wcase, default=default))
+    # exhaustive: every ordered pair of request kinds, first on application A, then on application B (stock and custom configuration)
+    if True:
+        kinds = list(S.KINDS) + ['foreign']
+        pairs = [(a, b) for a in kinds for b in kinds]
+        # the references of this grid come from fresh interpreter processes, one request each
+        from vlib import fresh
+        got = fresh.references([(k, n, cfg, False) for k in kinds for n in (5, 6, 7) for cfg in ('default', 'custom')])
+        for (k, n, cfg, _), v in got.items():
+            if v[0] == 'escaped':
+                raise CheckFailure(f'reference request {k, n, cfg} raised {v[1]}')
+            _SOLO[(k, n, cfg)] = v
+        ctx.count('references_from_fresh_processes', len(got))
+        for a, b in pairs[ctx.shard::max(1, ctx.nshards)]:
+            for cfg in (['default', 'default'], ['custom', 'default']):
+                ctx.guarded(check_pair, {'napps': 2, 'default': -1, 'threads': None, 'cfg': cfg,
+                                         'steps': [{'app': 0, 'kind': a, 'n': 5, 'acts': []}, {'app': 1, 'kind': b, 'n': 6, 'acts': []}, {'app': 0, 'kind': b, 'n': 7, 'acts': []}]})
+        ctx.count('exhaustive_ordered_kind_pairs_across_two_apps', len(pairs))
     ctx.note('search runs under vlib/shim.py (per-instance ts_props stores): exclusion by construction of open finding K10; witnesses run without it')
     n = 600 if ctx.tier == 'quick' else 8000
     ctx.hyp(case_st(), check_case, n)
